@@ -72,7 +72,7 @@ META = {
         "x {no meta change, catalog redefined, new /Root and /Info numbers} x 5 major physical forms per revision "
         "(table, xref stream, xref stream + object stream, hybrid, hybrid + object stream) x caching {on, off} x BUFSIZ "
         "{1,2,3,5,7,16,4096}; for fixed logical histories the full product of all expressible physical forms "
-        "(major form x table EOL {SP LF, CR LF, SP CR} x W {[1 2 1],[1 3 2],[0 2 1]}) per revision; 3-revision histories over a "
+        "(major form x table EOL {SP LF, CR LF, SP CR} x W {[1 2 1],[1 3 2],[0 2 1]}, plus table/hybrid forms whose trailer dictionary follows the keyword on the same line, `trailer <<` and `trailer<<`) per revision; 3-revision histories over a "
         "subset family with major forms deviating from (table, table, table) in <= L3_major_dev revisions (thorough: all; 4 configurations, 2 for vectors with 3 deviations), "
         "thorough also 4-revision histories with <= 2 deviations. extension families: X1 one revision x stream/hybrid forms x W x xref-stream coding {none, Flate, Flate+Predictor 12} x generations {all 0, >0}; X2 two revisions, every user object defined then each one untouched/defined again/freed x 25 major form pairs x coding/generation modes; X3 (and thorough X4) /Prev chains of 3 (4) revisions over objects 10, 11 mixing definitions, free entries, re-definitions after a free, generations and compressed streams, major forms with <= X3_major_dev (X4: 2) deviations. Every prefix of an enumerated history is itself a member of the "
         "family of shorter histories. damage part: 2 classic-table seeds plus 10 variants of the first seed whose content stream ends in every way (data directly before endstream, data ending in LF/CR/CRLF, blank lines, CR line ends, a single line, EOL LF/CRLF before endstream; /Length exact; quick: the first variant gets every damage kind, the others the operand/keyword/header kinds; thorough: all) x every startxref operand 0..len+8, 8 malformed operands, "
@@ -144,13 +144,22 @@ def phys_valid(r: int, form: str, pack: bool, eol: bytes, W: Tuple[int, int, int
     return True
 
 
-def all_phys(r: int) -> List[Tuple[str, bool, bytes, Tuple[int, int, int]]]:
-    out = []
+TRAILER_SEPS = (b" ", b"")  # "trailer <<...>>" and "trailer<<...>>" on one line (default: dictionary on the next line)
+
+
+def all_phys(r: int, seps: bool = False) -> List[Tuple[Any, ...]]:
+    out: List[Tuple[Any, ...]] = []
     for form, pack in MAJOR:
         for eol in EOLS:
             for W in WS:
                 if phys_valid(r, form, pack, eol, W):
                     out.append((form, pack, eol, W))
+    if seps:
+        # table and hybrid forms with the trailer dictionary on the keyword's line
+        for form, pack in MAJOR:
+            if form in ("T", "H"):
+                for sep in TRAILER_SEPS:
+                    out.append((form, pack, EOLS[0], WS[0], None, sep))
     return out
 
 
@@ -173,7 +182,7 @@ def build_history(defs_list, metas, phys, frees_list=None, genmode: str = "zero"
         live = (live | set(objs)) - set(frees)
         form, pack, eol, W = ph[:4]
         revs.append({"objs": objs, "root": root, "info": info, "form": form, "pack": pack, "eol": eol, "W": W,
-                     "xfilter": ph[4] if len(ph) > 4 else None, "frees": newfree, "gens": {n: gen.get(n, 0) for n in objs}})
+                     "xfilter": ph[4] if len(ph) > 4 else None, "trailer_sep": ph[5] if len(ph) > 5 else b"\n", "frees": newfree, "gens": {n: gen.get(n, 0) for n in objs}})
     return revs
 
 
@@ -903,7 +912,7 @@ def run_shard(shard, tier, st):
     diff: Dict[Any, Any] = {}
     if fam == "L1":
         defs = subs[shard[1]]
-        for i, ph in enumerate(all_phys(0)):
+        for i, ph in enumerate(all_phys(0, seps=True)):
             check_document(st, [defs], ["none"], [ph], configs_full(), diff, sample=(shard[1] == len(subs) - 1 and i == 5))
     elif fam == "L2":
         d0, d1, meta = subs[shard[1]], subs[shard[2]], META1[shard[3]]
@@ -913,8 +922,13 @@ def run_shard(shard, tier, st):
     elif fam == "L2P":
         (defs_list, metas) = l2p_logicals(b["users"][:3])[shard[1]]
         p0 = all_phys(0)[shard[2]]
-        for p1 in all_phys(1):
-            check_document(st, list(defs_list), list(metas), [p0, p1], CONFIGS_SMALL, diff)
+        for j, p1 in enumerate(all_phys(1, seps=True)):
+            check_document(st, list(defs_list), list(metas), [p0, p1], CONFIGS_SMALL, diff, sample=(shard[2] == 0 and j == 25))
+        if tier == "thorough" and p0[0] in ("T", "H") and p0[2] == EOLS[0] and p0[3] == WS[0]:
+            # the older revision's trailer on the keyword's line too
+            for sep in TRAILER_SEPS:
+                for p1 in all_phys(1, seps=True):
+                    check_document(st, list(defs_list), list(metas), [p0[:4] + (None, sep), p1], CONFIGS_SMALL, diff)
     elif fam in ("L3", "L4"):
         s = b["L3_subsets"] if fam == "L3" else BOUNDS["quick"]["L3_subsets"]
         defs_list = [s[i] for i in shard[1:]]
